@@ -716,7 +716,7 @@ def check_invariant(chk, tu):
                    % (len(path), 'is accepted' if want == 0 else 'is rejected', PM), 'wasiFileDescriptorsAdd:path-length')
 
 
-def readdir_paths(tu, dir_value, cookie, buflen=100, errno_value=5, max_paths=4000):
+def readdir_paths(tu, dir_value, cookie, buflen=100, errno_value=5, max_paths=4000, name=(110,)):
     def table():
         t = std_table(0)
         t[3]['dir'] = dir_value
@@ -735,11 +735,11 @@ def readdir_paths(tu, dir_value, cookie, buflen=100, errno_value=5, max_paths=40
             interp.event('readdir-null', (), node)
             return 0
         ent = {'d_ino': unk('ino%d' % k, 'unsigned long'), 'd_off': unk('off%d' % k), 'd_reclen': unk('reclen'),
-               'd_type': st2.get('dtype', 8), 'd_name': [110, 0]}
+               'd_type': st2.get('dtype', 8), 'd_name': list(name) + [0]}
         cell = {'v': ent}
         return Ptr(cell, 'v')
     leafs['readdir'] = readdir_leaf
-    leafs['strlen'] = lambda i, a, n: (1 if isinstance(a[0], Ptr) and isinstance(a[0].c, list) and a[0].c[:1] == [110] else Sym('strlen', (pe._hashable(a[0]),), 'unsigned long'))
+    leafs['strlen'] = lambda i, a, n: (len(name) if isinstance(a[0], Ptr) and isinstance(a[0].c, list) and a[0].c[:1] == [110] else Sym('strlen', (pe._hashable(a[0]),), 'unsigned long'))
     it = W.make_interp(tu, st2, leafs, max_paths)
 
     def setup():
@@ -836,6 +836,23 @@ def check_readdir(chk, tu):
                        'anything below buflen (%d) tells the guest that no entries remain, so the rest of the directory is never delivered'
                        % (blen, fin[-1] if fin else None, blen), site + ':buffer-full')
     chk.require(full >= 2, 'no path exercises the buffer-full convention')
+    # an entry whose name is cut by the end of the buffer still reports its full name length: the consumer detects the cut by
+    # 24 + d_namlen > bytes left and reads the entry again from the previous cookie - with the truncated length in the header the cut
+    # entry looks complete under a shorter name and the real entry is never delivered.  Entries with 3-character names, buffers that
+    # end inside the first name (25, 26) and inside the second (27 + 25)
+    ncut = 0
+    for blen in (25, 26, 27 + 25):
+        for p in readdir_paths(tu, OPEN, unk('cookie', 'unsigned long long'), buflen=blen, name=(110, 97, 98)):
+            if p.ret != 0:
+                continue
+            lens_ = [(offset_from(a[1], buf), a[2]) for n_, a, l in p.events if n_ == 'gstore' and offset_from(a[1], buf) is not None and
+                     isinstance(offset_from(a[1], buf), int) and offset_from(a[1], buf) % 27 == 16 and a[0] == 32]
+            for off_, v_ in lens_:
+                ncut += 1
+                chk.expect(v_ == 3, 'R14.5', 'namlen-of-cut-entry[buflen=%d,entry@%d]' % (blen, off_ - 16),
+                           'with a %d-byte buffer the entry at offset %d (name of 3 characters) is stored with d_namlen = %r; the header always '
+                           'carries the full name length, also when the buffer ends inside the name' % (blen, off_ - 16, v_), site + ':namlen')
+    chk.require(ncut >= 3, 'no path stores the name length of an entry cut by the end of the buffer')
 
 
 def _strip_data(v):
